@@ -5,9 +5,9 @@
 (* trace.ndjson holds, per case (records sharing "cid", first one has       *)
 (* "begin": true), what the driver observed on two real multiplexers:       *)
 (*   Call/Ret  an API call was started / returned (arguments, results)      *)
-(*   Wire      a message written by endpoint e (tap, wire order)            *)
-(*   Dlv       (script mode) a message was handed to e's reader and the     *)
-(*             reader finished processing it                                *)
+(*   Wire      (free mode) a message written by endpoint e (tap, wire order) *)
+(*   Dlv       (script mode) a message written by the peer was handed to    *)
+(*             e's reader and the reader finished processing it             *)
 (*   End       Closed()/InternalError() of both multiplexers at the end     *)
 (*   Block/Hol/Backlog  timed scenarios of C25 (judged by MuxTime)          *)
 (*                                                                         *)
@@ -177,7 +177,8 @@ Next3(i, r) ==   \* <<new st, new ax, new stats, failures>>
        <<st, ax, [stats EXCEPT !.wirebad = @ + B2N(r.s < 1 \/ r.s > MaxId \/ ~SenderRule(st, r.e, MsgOf(r)))], <<>>>>
   ELSE IF r.ev = "Dlv" THEN
        (IF r.s < 1 \/ r.s > MaxId THEN <<st, ax, [stats EXCEPT !.drift = @ + 1], <<>>>>
-        ELSE <<NoWire(RecvMsg(st, r.e, MsgOf(r))), ax, [stats EXCEPT !.dlv = @ + 1], <<>>>>)
+        ELSE <<NoWire(RecvMsg(st, r.e, MsgOf(r))), ax,
+               [stats EXCEPT !.dlv = @ + 1, !.wirebad = @ + B2N(~SenderRule(st, Peer(r.e), MsgOf(r)))], <<>>>>)
   ELSE IF r.ev = "End" THEN
        <<st, ax,
          [stats EXCEPT !.drift = @ + B2N(Script /\ \E e \in E : st.perr[e] # Observed(st, r).perr[e])],
